@@ -107,7 +107,7 @@ def gen(rng, tier, index):
         s_["threshold"] = gens.pick(rng, (None, None, ("relative", 1e-12), ("relative", 1e-9), ("absolute", 0.0))) if kind not in ("dup_rows", "lattice") else None  # (on duplicated points an exhausted search does reach it)
     past = None
     if rng.random() < 0.3:  # the estimator objects were fitted before, on another cloud of the same shape
-        past = rng.normal(size=X.shape) * unit * float(10.0 ** rng.uniform(-1, 1))
+        past = forms.sibling_or(X, rng.normal(size=X.shape), unit * float(10.0 ** rng.uniform(-1, 1)))
     return {"X": X, "kind": kind, "kw": kw, "chain": chain, "settings": settings, "unit": unit, "past": past, "huge": bool(huge)}
 
 
